@@ -173,8 +173,14 @@ class Worker:
                                   stderr=subprocess.DEVNULL, text=True, env=env, cwd=VERIF)
 
     def call(self, **req):
+        self.send(**req)
+        return self.recv(req)
+
+    def send(self, **req):
         self.p.stdin.write(json.dumps(req) + "\n")
         self.p.stdin.flush()
+
+    def recv(self, req=None):
         while True:
             line = self.p.stdout.readline()
             if not line:
@@ -377,6 +383,8 @@ class Exec:
         kind = op[0]
         if kind == "hash":
             return self.do_hash(op)
+        if kind == "hash2":          # both processes ask at the same time (modelled as two requests in a row)
+            return self.do_hash(["hash", 0, op[1], op[2]], concurrent=True)
         if kind == "cleanup":
             self.workers[0].call(cmd="cleanup")
             self.coq_ops.append("gcl")
@@ -447,9 +455,11 @@ class Exec:
         except Exception:
             return None
 
-    def do_hash(self, op):
+    def do_hash(self, op, concurrent=False):
         _, proc, mode, tgt = op
         w = self.workers[proc % len(self.workers)]
+        if concurrent and len(self.workers) < 2:
+            concurrent = False
         kind = tgt[0]
         path = self.rp(tgt[1]) if kind == "file" else self.rd(tgt[1])
         self.nfresh += 1
@@ -458,7 +468,12 @@ class Exec:
         tree = self.tree(tgt)
         if "hex" in oracle:
             self.hex2tree.setdefault(oracle["hex"], tree)
-        res = w.call(cmd="hash", kind=kind, path=path, mode=mode)
+        if concurrent:
+            for x in self.workers[:2]:
+                x.send(cmd="hash", kind=kind, path=path, mode=mode)
+            res, res_b = [x.recv() for x in self.workers[:2]]
+        else:
+            res = w.call(cmd="hash", kind=kind, path=path, mode=mode)
         store = len([f for f in os.listdir(self.hc) if not f.endswith(".lock")]) if os.path.isdir(self.hc) else 0
         if "hex" in res:
             obs_tree = self.hex2tree.get(res["hex"], (True, [(99, "unknown digest")]))
@@ -485,6 +500,13 @@ class Exec:
         ok = res.get("hex") == oracle.get("hex") and res.get("err") == oracle.get("err")
         if mode == "task" and "hex" in res:
             ok = ok and res.get("checksum") == oracle.get("checksum")
+        if concurrent:
+            ok = ok and res_b.get("hex") == res.get("hex") and res_b.get("err") == res.get("err")
+            entry["hash_in_process_1"] = res_b.get("hex", res_b.get("err"))
+            self.coq_ops.append("(ghash 1 %s %s)" % (MODE[mode], enc_target(tgt)))
+            self.coq_obs.append(obs)
+            self.trace.append({"op": ["hash", 1, mode, tgt], "hash": entry["hash_in_process_1"],
+                               "cacheless": entry["cacheless"], "store_entries": store, "concurrent_with_previous": True})
         if not ok:
             self.python_spec_failures.append(len(self.trace) - 1)
 
@@ -574,6 +596,8 @@ def gen_history(rng):
             ops.append(["write", list(other), rng.choice(CONTENTS)])
         if rng.random() < 0.35:
             ops.append(hash_op())
+        elif nproc == 2 and rng.random() < 0.12:
+            ops.append(["hash2", rng.choice(["fresh", "obj", "task"]), focus])
     ops.append(hash_op())
     if rng.random() < 0.3:
         ops.append(hash_op(any_target()))
@@ -722,7 +746,7 @@ def load_case(c):
 
 def run(ctx):
     rng = ctx.rng
-    n = ctx.budget(150, 2000)
+    n = ctx.budget(150, 1400)
     n_fresh = min(ctx.budget(4, 30), 40)          # histories served by interpreters started just for them
     root_parent = tempfile.mkdtemp(prefix="verif-c09-", dir="/tmp")
     shared = [Worker(), Worker()]
@@ -778,6 +802,7 @@ def run(ctx):
                     dist["failed_os_operations"] += 1
             dist["rehash_after_content_change"] += ex.rehash_after_change
             out.evaluations += sum(1 for t in ex.trace if t["op"][0] == "hash")
+            dist["concurrent_hash_pairs"] = dist.get("concurrent_hash_pairs", 0) + sum(1 for t in ex.trace if t.get("concurrent_with_previous"))
             sig = json.dumps(case["ops"])
             if sig not in seen:
                 seen.add(sig)
@@ -796,10 +821,14 @@ def run(ctx):
                                    "coq_cases": round(time.time() - t_exec, 1)}
         dist["histories_on_which_the_pre_fix_key_is_stale_in_the_model"] = len(res["pinned"])
         pyfailed = {i for i, m in enumerate(metas) if m["pyfail"]}
+        explained = 0
         for i in res["spec"]:
             if i in pyfailed:
                 continue                         # already reported with the concrete step
             m = metas[i]
+            explained += 1
+            if explained > 6:
+                break
             out.failures.append(Failure(case=m["case"], observed=m["trace"], kind="tie",
                                         expected=explain(ctx, cases[i], "x%d" % i),
                                         note="the hashes agree with pydra's cache-less recomputation but not with the "
@@ -808,6 +837,9 @@ def run(ctx):
             if i in pyfailed or i in res["spec"]:
                 continue
             m = metas[i]
+            explained += 1
+            if explained > 6:
+                break
             out.failures.append(Failure(case=m["case"], observed=m["trace"], expected=explain(ctx, cases[i], "t%d" % i),
                                         kind="tie", note="model and implementation differ (snapshot, key, store size or hash)"))
         out.distinct_nontrivial = nontrivial
@@ -816,6 +848,8 @@ def run(ctx):
         out.samples = [{"nproc": m["case"]["nproc"], "ops": m["case"]["ops"],
                         "hashes": [[t["hash"], t["cacheless"]] for t in m["trace"] if t["op"][0] == "hash"]} for m in metas[:4]]
         out.extra["c09_python_level_stale_hashes"] = len(pyfailed)
+        out.extra["c09_histories_failing_tie"] = len(res["tie"])
+        out.extra["c09_histories_failing_coq_spec"] = len(res["spec"])
         return out
     finally:
         for w in shared:
